@@ -109,6 +109,15 @@ func TestTimeExpressionConstantDate(t *testing.T) {
 	testExpression(t, mockContext("2020-01-01"), `{time {coalesce {0} 2020-01-01}}`, "1577836800")
 }
 
+func TestTimeExpressionStaticAnalysisLeavesNoFormat(t *testing.T) {
+	// the optimizer evaluates the @map stage without input: the constant element must not decide the format
+	for _, kb := range []*expressions.KeyBuilder{NewStdKeyBuilderEx(true), NewStdKeyBuilderEx(false)} {
+		compiled, err := kb.Compile(`{@map {@ {0} 2020-01-01} "{time {0}}"}`)
+		assert.Nil(t, err)
+		assert.Equal(t, "1577959200"+expressions.ArraySeparatorString+"<PARSE-ERROR>", compiled.BuildKey(mockContext("01/02/2020 10:00")))
+	}
+}
+
 func TestTimeExpressionDetectionAuto(t *testing.T) {
 	testExpression(t,
 		mockContext("14/Apr/2016:19:12:25 +0200"),
